@@ -115,8 +115,9 @@ class SugarGen:
     def loop(self, depth, scope, local_ids, frm):
         rng = self.rng
         bid = self._id("L")
-        var = f"v{depth}"
-        idx = f"i{depth}"
+        # mostly one name per depth; sometimes a name already bound outside (shadowing must compose)
+        var = f"v{depth}" if (depth == 0 or rng.random() < 0.75) else f"v{rng.randrange(depth)}"
+        idx = f"i{depth}" if (depth == 0 or rng.random() < 0.75) else f"i{rng.randrange(depth)}"
         use_idx = rng.random() < 0.4
         k = rng.choice([0, 1, 1, 2, 2, 3])
         elems = [rng.choice(["a", "b", "c", "d"]) for _ in range(k)]
